@@ -83,17 +83,17 @@ class Prop:
         if not quick:
             groups += list(M.gen_groups(4, nmin=4, labelings=("mixed",)))
         # deeper shapes (depth 3, two grandchildren; a chain of 4): thorough = all five x everything,
-        # quick = three of them (two grandchildren, a chain of 4, three grandchildren), 'mixed' labeling, every 4th alternative
+        # quick = three of them (two grandchildren, a chain of 4, three grandchildren), 'mixed' labeling, every 6th alternative
         groups += list(M.gen_groups(0, shapes=[M.EXTRA_SHAPES[i] for i in (0, 1, 3)] if quick else M.EXTRA_SHAPES,
                                     labelings=("mixed",), full=not quick))
         for gi, g in enumerate(groups):
             alts = g["alts"]
             if quick and g["n"] > 3:
-                alts = [a for i, a in enumerate(alts) if i % 4 == gi % 4]
+                alts = [a for i, a in enumerate(alts) if i % 6 == gi % 6]
             elif quick and g["n"] == 3:
-                # quick tier: every 7th alternative per group, the offset moves with the group (the union over the
+                # quick tier: every 9th alternative per group, the offset moves with the group (the union over the
                 # 20 groups of 3-node sources still covers every alternative; the thorough tier runs all of them)
-                alts = [a for i, a in enumerate(alts) if i % 7 == gi % 7]
+                alts = [a for i, a in enumerate(alts) if i % 9 == gi % 9]
             for i in range(0, len(alts), CHUNK):
                 yield dict(kind="alts", univ=g["univ"], setup=g["setup"], alts=alts[i:i + CHUNK], label=g["label"])
         # sources REACHED THROUGH A HISTORY (creation order != current order: front inserts, sort(reverse), moves - also
@@ -108,7 +108,7 @@ class Prop:
                 yield dict(kind="alts", univ=g["univ"], setup=g["setup"], alts=g["alts"][i:i + 64], label=g["label"])
         groups = groups + hist_groups
         # histories on small sources: every k-th copy alternative followed by a mutation tail
-        stride = 41 if quick else 18
+        stride = 61 if quick else 22
         j = 0
         for g in groups:
             if g["n"] < 2:
